@@ -63,6 +63,13 @@ def addEps (eps : α) : XR α → XR α
   | fin a => fin (a + eps)
   | x => x
 
+/-- executable form, at one bound, of the only fact the theorems use about the margin arithmetic (`EpsOk` in
+Lemmas): `a - EPS` is not above `a` and `a + EPS` is not below it. The driver evaluates it at Float on every bound of every
+live vector of the correspondence stream. -/
+def epsOkAt (eps : α) : XR α → Bool
+  | fin a => !decide (a < a - eps) && !decide (a + eps < a)
+  | _ => true
+
 /-- `val < mins - EPS  |  val > maxs + EPS` (one element of the `__checkvalues__` hit test) -/
 def outsideEps (eps : α) (x lo hi : XR α) : Bool := lt x (lo.subEps eps) || lt (hi.addEps eps) x
 /-- `value < mins[idx] or value > maxs[idx]` (the `__setattr__` hit test: no margin) -/
@@ -116,6 +123,8 @@ inductive Err
   | flagConflict | dupNames | badLength | nanValue | maxsOutside | defaultsOutside | unknownKey | index
   /-- `getattr(vect, name)` on a non-name (AttributeError), a value `float()` rejects, a failing copy protocol -/
   | noAttr | notNumber | copyProtocol
+  /-- a guard of a transform constructor (`minilam < -3`), an unknown transform name in `get_transform` -/
+  | ctorGuard | unknownClass
   deriving DecidableEq, Repr
 
 inductive Out
@@ -423,6 +432,9 @@ def valuesOk (an : Bool) (vals lo hi : List (XR α)) : Bool := all3 (okElem an) 
 def boundElem (l h : XR α) : Bool := !l.isNaN && !h.isNaN && !XR.lt h l
 def boundsOk (lo hi : List (XR α)) : Bool := all2 boundElem lo hi
 
+/-- `EpsOk` evaluated on the bounds of one vector -/
+def View.epsOk (eps : α) (v : View α) : Bool := v.mins.all (XR.epsOkAt eps) && v.maxs.all (XR.epsOkAt eps)
+
 def View.ok (v : View α) : Bool :=
   valuesOk v.acceptNan v.values v.mins v.maxs && valuesOk v.acceptNan v.defaults v.mins v.maxs
     && boundsOk v.mins v.maxs
@@ -479,6 +491,9 @@ def tinit [OfNat α 0] (eps : α) (params constants : Spec α) (bc : Option (Spe
 inductive TOp (α : Type) where
   /-- read-only uses -/
   | forward | backward | jacobian | sample | logprior | print
+  /-- `trans[name]` (routed like `__setitem__`; ValueError on an unknown key) and `trans.name` / `getattr(trans, name)`
+  (params first, then constants; a non-name is an ordinary Python attribute lookup: AttributeError) -/
+  | getItem (name : String) | getAttr (name : String)
   /-- `trans[name] = x` -/
   | setItem (name : String) (x : XR α)
   /-- `setattr(trans, name, x)` -/
@@ -491,8 +506,21 @@ inductive TOp (α : Type) where
   deriving Repr
 
 def TOp.readOnly : TOp α → Bool
-  | .forward | .backward | .jacobian | .sample | .logprior | .print => true
+  | .forward | .backward | .jacobian | .sample | .logprior | .print | .getItem _ | .getAttr _ => true
   | _ => false
+
+/-- the vector `trans[name]` / `trans[name] = x` is routed to: the parameter vector when there is no constant or when
+`name` is a parameter name, else the constant vector -/
+def Trans.route (t : Trans) (p c : Vec) (nm : String) : Nat :=
+  if c.n = 0 then t.params else if p.names.contains nm then t.params else t.constants
+
+/-- the value `trans[name]` / `trans.name` returns -/
+def treadItem (w : World α) (t : Trans) (nm : String) : Option (XR α) :=
+  match w.vecs[t.params]?, w.vecs[t.constants]? with
+  | some p, some c =>
+    if p.names.contains nm then readItem w t.params nm
+    else if c.names.contains nm then readItem w t.constants nm else none
+  | _, _ => none
 
 /-- the values the class hands to `BC.params.values` (`none`: the getter raised on a NaN constant) -/
 def syncValues (w : World α) (t : Trans) : Option (List (XR α)) :=
@@ -520,6 +548,16 @@ def sync (eps : α) (w : World α) (t : Trans) : World α :=
 def tstep (eps : α) (w : World α) (t : Trans) : TOp α → World α × Out
   | .forward | .backward | .jacobian => (sync eps w t, .ok)
   | .sample | .logprior | .print => (w, .ok)
+  | .getItem nm =>
+    match w.vecs[t.params]?, w.vecs[t.constants]? with
+    | some p, some c => w.peek (t.route p c nm) fun _ v => match indexOf nm v.names with
+        | none => .rejected .unknownKey
+        | some _ => .ok
+    | _, _ => (w, .rejected .index)
+  | .getAttr nm =>
+    match w.vecs[t.params]?, w.vecs[t.constants]? with
+    | some p, some c => (w, if p.names.contains nm || c.names.contains nm then .ok else .rejected .noAttr)
+    | _, _ => (w, .rejected .index)
   | .setItem nm x =>
     match w.vecs[t.params]?, w.vecs[t.constants]? with
     | some p, some c =>
